@@ -45,7 +45,7 @@ RULE = ('cases: synthesized ELF images = class x byte order x e_machine (the 5 t
         '(escape e_shnum=0/PN_XNUM/SHN_XINDEX forced at small counts; true >=0xff00 sections / >=0xffff segments in thorough) x random '
         'field values incl. unknown and processor-specific type codes x duplicate/empty/non-ASCII/long names; every processor-supplement '
         'code of Spec/C01Machines.v on its machine (expected name from the Coq spec, kind anchor); real 0xfeff..0x10000-entry tables at the '
-        'boundary values of the three escape rules (kind edge, every run); on every well-formed image a call history on ONE object '
+        'boundary values of the three escape rules (kind edge, every run); section names of 65535..131072 bytes (kind longname); on every well-formed image a call history on ONE object '
         '(enumerations abandoned after k items, lookups first on a fresh object, names that are proper suffixes of stored names or strings '
         'of the name table naming no section); pairs of live objects of different table-switching machines read alternately (kind pair); '
         'plus malformed variants '
@@ -168,6 +168,9 @@ def make_case(rng, opts=None):
         names.append(b'' if (i == 0 and rng.random() < 0.6) else rng.choice(pool))
     if n > 2 and rng.random() < 0.5:
         names[rng.randrange(n)] = names[rng.randrange(n)]        # force a duplicate
+    if 'long_name' in o and n > 1:
+        L = o['long_name']
+        names[rng.randrange(1, n)] = (b'.long_' + bytes(rng.choice(b'abcdefgh_.') for _ in range(L)))[:L]
     strbody = bytearray(bytes([rng.choice([0, 0, 0x41, 0xff])]))
     offs = {}
     sh_names = []
@@ -430,6 +433,17 @@ def py_encode(spec):
     return [eh, sh, ph]
 
 
+LONG_NAMES = [65535, 65536, 65537, 70001, 131072]
+
+
+def expand_longname(a):
+    """an ordinary small image one of whose sections bears a name of 64 KiB or more (names are NUL-terminated
+    strings of any length; the chunked reader must not give up)"""
+    _, idx, is64, le, seed = a
+    r = random.Random(seed)
+    return make_case(r, dict(is64=bool(is64), le=bool(le), n=r.choice([2, 3, 5]), long_name=LONG_NAMES[idx % len(LONG_NAMES)]))
+
+
 def expand_anchor(a, anchors):
     """an image of the anchor's machine whose section 1 / segment 0 carries the anchor's code"""
     _, which, idx, is64, le, seed = a
@@ -462,6 +476,9 @@ def gen(ctx):
     for which, cnt in (('sh', 11), ('p', 6)):
         for idx in range(cnt):
             cases.append(('anchor', ['anchor', which, idx, rng.getrandbits(1), rng.getrandbits(1), rng.getrandbits(32)]))
+    # very long section names (around and beyond 64 KiB), as a section's own name and as a lookup key
+    for idx in range(ctx.scale(4, len(LONG_NAMES))):
+        cases.append(('longname', ['longname', idx, rng.getrandbits(1), rng.getrandbits(1), rng.getrandbits(32)]))
     # two live ELFFile objects of one class / byte order and different table-switching machines, read alternately
     for _ in range(ctx.scale(12, 120)):
         ma, mb = rng.sample(EM_SPECIAL, 2)
@@ -766,6 +783,17 @@ def expand_pair(a):
     return out
 
 
+def _abbrev(ans):
+    """what is recorded: byte strings over 256 bytes (the very long names) by length and SHA-1, the same way in the
+    implementation's, the model's and the spec's answers"""
+    import hashlib
+    if isinstance(ans, (bytes, bytearray)) and len(ans) > 256:
+        return ('<%d bytes sha1=%s>' % (len(ans), hashlib.sha1(bytes(ans)).hexdigest())).encode()
+    if isinstance(ans, list):
+        return [_abbrev(x) for x in ans]
+    return ans
+
+
 def _classify(a, img, impl, spec, queries):
     """stable key for a failing case: which observable differs first"""
     sp = a[0]
@@ -850,7 +878,8 @@ def evaluate(ctx, cases):
                 kinds.append('image'); full.append(b); owner.append(ci)
         else:
             kinds.append(kind); owner.append(ci)
-            full.append(expand_big(a) if kind == 'big' else expand_edge(a) if kind == 'edge' else a)
+            full.append(expand_big(a) if kind == 'big' else expand_edge(a) if kind == 'edge'
+                        else expand_longname(a) if kind == 'longname' else a)
     small = [i for i, kind in enumerate(kinds) if kind not in ('edge', 'big')]
     encs = [None] * len(full)
     for i, enc in zip(small, drv.batch([['encode', full[i][0]] for i in small])):
@@ -938,6 +967,6 @@ def evaluate(ctx, cases):
             spec = model       # nothing is claimed outside the domain; impl vs model is reported as drift only
         if kind in ('edge', 'big'):
             ctx.bump('edge_counts', '%x/%x/%x' % (len(sp[3]), sp[5], len(sp[4])))
-        ctx.record(kind, a0, impl=impl, spec=spec, model=model, in_domain=in_domain,
+        ctx.record(kind, a0, impl=_abbrev(impl), spec=_abbrev(spec), model=_abbrev(model), in_domain=in_domain,
                    nontrivial=bool(sp[3] or sp[4]), key=key,
                    detail={'wf': wf, 'len': len(img)})
